@@ -195,6 +195,11 @@ pub fn shard(ctx: &Ctx) -> Shard {
         let mut cfg = super::common::random_cfg(&mut rng, p.n_keys, p.n_meta, Some(true));
         cfg.keylen = 8;
         cfg.validate_data = rng.chance(1, 2);
+        // a third of the scenarios: the quarantine directory has another name; corrupted_blobs_count must count there
+        if rng.chance(1, 3) {
+            cfg.corrupted_dir = Some((*rng.pick(&["quarantine", "bad.blobs", "c"])).to_string());
+            sh.add("quarantine_scenarios_custom_dir_name", 1);
+        }
         qn += 1;
         if qn % 5 == 0 {
             let dir = new_dir("c15a-");
